@@ -36,7 +36,7 @@ inductive Op where
 
 inductive Tag where
   | ok | full | closed | sentAlready | empty | disconnected | timeout | closeErr
-  | blocks | unsupported | noHandle | nameExists
+  | blocks | unsupported | noHandle | nameExists | pending | busy | noFut | futDone
   deriving DecidableEq, Repr, Inhabited, Hashable
 
 inductive PVal where
@@ -61,6 +61,8 @@ structure Cfg where
   hot : Bool := true
   /-- lock-free batch forms (spsc, mpsc bounded) move one item per atomic step -/
   granular : Bool := false
+  /-- manual-poll futures: `wakes f => n:0` / `dropfut f => ok` on a polled pending future require it to be disabled -/
+  wakeRule : Bool := true
   deriving Repr, Inhabited
 
 /-- an operation in progress -/
@@ -469,7 +471,7 @@ def startRecv (fl : Flavour) (cfg : Cfg) (s : St) (t : Nat) (f : Form) (h : HNam
         | _ =>
           match recvStep fl cfg s t f hd n [] with
           | some r => r
-          | none => (s, .brecv t f h n [])
+          | none => (mbFlush fl s, .brecv t f h n [])   -- mpsc bounded: progress is flushed before the consumer waits
 
 /-! ## handle operations -/
 
@@ -558,7 +560,12 @@ def microDet (fl : Flavour) (cfg : Cfg) (s : St) : P → Option (St × P)
   | .brecv t f h n got =>
     match findH s.hs h with
     | none => none
-    | some hd => recvStep fl cfg s t f hd n got
+    | some hd =>
+      match recvStep fl cfg s t f hd n got with
+      | some r => some r
+      | none =>
+        -- still nothing to take: a re-polled mpsc-bounded consumer flushes its unpublished progress again
+        if fl.fam = .mb ∧ s.unpub > 0 then some (mbFlush fl s, .brecv t f h n got) else none
   | .rvSend t v =>
     if (t, v) ∈ s.sdone then some ({ s with sdone := s.sdone.erase (t, v) }, .fin { tag := .ok, sent := [v] })
     else if (t, v) ∈ s.sdisc then
@@ -594,6 +601,7 @@ def microDet (fl : Flavour) (cfg : Cfg) (s : St) : P → Option (St × P)
   Empty / Timeout (or ends its batch early) although completed sends are buffered behind it;
 * a `try_send*` on the bounded mpsc reports Full because in-flight sends hold tickets, or because
   SKIP tombstones of an earlier overshoot still occupy the window (`tomb`);
+* a parked blocking send (re-polled send future) finds the receivers gone before it looks at the space;
 * mpmc bounded: a *parked* sync receiver woken by the last sender's close returns Disconnected
   without looking at the buffer again (sync_impl.rs:304-311, 352-357; async_impl.rs:733-745) — finding F17. -/
 def microSpur (fl : Flavour) (cfg : Cfg) (s : St) : P → List (St × P)
@@ -605,9 +613,12 @@ def microSpur (fl : Flavour) (cfg : Cfg) (s : St) : P → List (St × P)
       | _ => []
     else []
   | .bsend t f h sent rest _ =>
-    if fl.fam = .mb ∧ !f.blocking ∧ (s.inflight > 1 ∨ s.tomb > 0) then
+    (if fl.fam = .mb ∧ !f.blocking ∧ (s.inflight > 1 ∨ s.tomb > 0) then
       (sendStep fl cfg { s with tomb := s.tomb + rest.length } t f h sent rest 0 true).toList
-    else []
+    else []) ++
+    -- a blocking send that was parked (or a re-polled send future) re-checks the closed flags before it
+    -- tries again: with the receivers gone it may fail Closed even though there is room now
+    (if f.blocking ∧ receiversGone fl s then [failSend fl s f .closed sent rest] else [])
   | .brecv _ f h _ got =>
     (if hidesBehindInflight fl.fam ∧ s.inflight > 0 ∧ !got.isEmpty then
       [(mbFlush fl s, .fin { tag := .ok, got := got })] else []) ++
@@ -655,6 +666,11 @@ def runPS (fl : Flavour) (cfg : Cfg) : Nat → St → P → St × P
 
 def runP (fl : Flavour) (cfg : Cfg) (fuel : Nat) (s : St) (p : P) : St × Out :=
   ((runPS fl cfg fuel s p).1, (runPS fl cfg fuel s p).2.outOrBlocks)
+
+/-- the values a send form offers -/
+def Op.vals : Op → List Val
+  | .snd _ _ vs => vs
+  | _ => []
 
 def Op.size : Op → Nat
   | .snd _ _ vs => vs.length
